@@ -192,11 +192,12 @@ pub fn build_tracer(sc: &Scenario) -> Result<Tracer, String> {
         .max_rounds(Some(t.rounds as usize))
         .first_ttl(t.first_ttl)
         .max_ttl(t.max_ttl)
-        .grace_duration(Duration::from_nanos(t.grace_ns))
+        // u64::MAX stands for "no limit" as a library user would write it: Duration::MAX
+        .grace_duration(if t.grace_ns == u64::MAX { Duration::MAX } else { Duration::from_nanos(t.grace_ns) })
         .max_inflight(t.max_inflight)
         .initial_sequence(t.initial_seq)
         .port_direction(ports)
-        .min_round_duration(Duration::from_nanos(t.min_round_ns))
+        .min_round_duration(if t.min_round_ns == u64::MAX { Duration::MAX } else { Duration::from_nanos(t.min_round_ns) })
         .max_round_duration(Duration::from_nanos(t.max_round_ns))
         .max_samples(t.max_samples)
         .max_flows(t.max_flows)
